@@ -77,13 +77,15 @@ impl Check for C14 {
             let (n, class) = NAMES[i];
             // directory names: plain, with a space, nested, with dots (a dotted directory is not an extension),
             // named like a note file, hidden, non-ASCII
-            let (rel, dclass) = match rng.below(8) {
+            let (rel, dclass) = match rng.below(9) {
                 0 => (format!("sub dir/{}", n), ""),
                 1 => (format!("d1/e1/{}", n), ""),
                 2 => (format!("rel-1.0/{}", n), "+dir:dotted"),
                 3 => (format!("2024.01/w.x/{}", n), "+dir:dotted"),
                 4 => (format!("arch.md/{}", n), "+dir:md"),
                 5 => (format!("ünï dir/{}", n), "+dir:non-ascii"),
+                // only ".iwe" itself holds the tool's files: a directory whose name merely begins like it holds notes
+                6 => (format!(".iwe-archive/{}", n), "+dir:iwe-prefix"),
                 _ => (n.to_string(), ""),
             };
             files.insert(rel, (format!("Title{}", i), format!("{}{}", class, dclass)));
